@@ -207,7 +207,13 @@ def run(ctx) -> None:
     # ---- R1: structural identity ----------------------------------------------------------
     ext_mod = prog.module("hugr._serialization.extension")
     total = 0
-    for (p, r, e), pub in sorted(files.items()):
+    # the generator's calls run in one process and every rebuild updates the classes' model_config in place: a class that a later
+    # call does not reconfigure (SerialHugr, reached from the testing roots through Package) keeps what an earlier call left.  The
+    # files are therefore derived in the order of the calls, carrying that state.
+    state: dict = {}
+    order = [(p, r, e) for p, r, e, _, _ in triples if (p, r, e) in files]
+    for (p, r, e) in order:
+        pub = files[(p, r, e)]
         fname = f"{SCHEMA_DIR}/{p}_{version}.json"
         if title is not None:
             ctx.check(pub.get("title") == title, "C17.R2", f"{p}: top-level title", ctx.root / fname, 1,
@@ -220,6 +226,7 @@ def run(ctx) -> None:
             pass
         d = SchemaDeriver(prog, semver)
         d.canon = ctx.canon
+        d.prior = dict(state)
         root_cls = None
         for mn in ("hugr._serialization.serial_hugr", "hugr._serialization.testing_hugr"):
             if r in prog.module(mn).classes:
@@ -236,6 +243,8 @@ def run(ctx) -> None:
             mine = d.derive(root_cls, e, also)
         except Unsupported as ex:
             ctx.broken(f"schema derivation met a construct outside the supported subset: {ex}")
+        for k_ in d.configured_classes(root_cls):
+            state[k_] = e
         for name in sorted(set(mine) | set(pub_defs)):
             total += 1
             inst = f"{p}:{name}"
@@ -337,7 +346,7 @@ def r4_config_plumbing(ctx) -> None:
                   "the class list handed to model_rebuild must be all classes defined in this module" + (" plus those of tys" if want_plus else ""), v)
 
 
-def r3_no_hidden_acceptance_logic(ctx, d) -> None:
+def r3_no_hidden_acceptance_logic(ctx, d, with_required: bool = True) -> None:
     """What a model accepts must be what its schema says: no validators, constructors or config switches
     that accept/reject documents beyond the declared fields (the one pass-through WrapValidator excepted)."""
     bad_decos = ("field_validator", "model_validator", "validator", "root_validator", "field_serializer",
@@ -358,10 +367,21 @@ def r3_no_hidden_acceptance_logic(ctx, d) -> None:
                     if u(deco).split("(")[0].split(".")[-1] in bad_decos:
                         probs.append((fn, f"@{u(deco)[:40]} on {name}"))
             cfg = d.expand(m, c.class_assigns.get("model_config"))
+            seen_alias = 0
+            while isinstance(cfg, ast.Name) and seen_alias < 4:
+                # model_config = <module-level ConfigDict(..)>, possibly imported
+                seen_alias += 1
+                try:
+                    r_ = d.resolve(m, cfg.id)
+                except Unsupported:
+                    break
+                cfg = r_[1] if r_[0] == "alias" else None
             if isinstance(cfg, ast.Call):
                 for kw in cfg.keywords:
                     if kw.arg not in ("title", "json_schema_extra"):
                         probs.append((cfg, f"model_config sets {kw.arg}"))
+            elif c.class_assigns.get("model_config") is not None and cfg is not None and not isinstance(cfg, ast.Call):
+                probs.append((c.class_assigns["model_config"], f"model_config is `{u(c.class_assigns['model_config'])[:40]}`, not a ConfigDict(..) literal"))
             for kw in c.node.keywords:
                 if kw.arg not in ("populate_by_name", "metaclass"):
                     probs.append((c.node, f"class keyword {kw.arg}"))
@@ -377,7 +397,7 @@ def r3_no_hidden_acceptance_logic(ctx, d) -> None:
             else:
                 ctx.ok("C17.R3", c.qualname, "fields only")
     # a `required` override in json_schema_extra only edits the schema: the decoder must require the field too
-    for m in d.mods.values():
+    for m in (d.mods.values() if with_required else ()):
         for c in m.classes.values():
             cfg = d.expand(m, c.class_assigns.get("model_config"))
             if not (d.is_model(c) and isinstance(cfg, ast.Call)):
